@@ -10,8 +10,6 @@ variable {F : Type} [Scalar F]
 def fresh : OnBalanceVolume F := { obv := Scalar.lit 0 0, prev_close := Scalar.lit 0 0 }
 
 theorem new_eq : (new : OnBalanceVolume F) = fresh := rfl
-theorem default_eq : (default_ : OnBalanceVolume F) = fresh := rfl
-
 /-- the running total after bar `b`: `+ volume` when `close > prev_close`, `− volume` when
     `close < prev_close`, unchanged otherwise (equal closes, or any NaN comparison) -/
 def out (s : OnBalanceVolume F) (b : Bar F) : F :=
@@ -44,10 +42,5 @@ theorem nextBar_flat (s : OnBalanceVolume F) (b : Bar F)
 theorem nextBar_total (s : OnBalanceVolume F) (b : Bar F) :
     ∃ r, s.nextBar b = some r ∧ r.2 = r.1.obv ∧ r.1.prev_close = b.close :=
   ⟨_, nextBar_eq s b, rfl, rfl⟩
-
-/-- `reset` rebuilds exactly the state `new` builds -/
-theorem reset_eq (s : OnBalanceVolume F) : s.reset = some fresh := rfl
-
-theorem display_eq (fmt : F → String) (s : OnBalanceVolume F) : display fmt s = "OBV" := rfl
 
 end TaRs.Gen.OnBalanceVolume
